@@ -2,3 +2,4 @@ import Spec.Frame
 import Spec.Rfc
 import Spec.Find
 import Spec.Wire
+import Spec.Canon
